@@ -571,3 +571,62 @@ pub mod network {
         }
     }
 }
+
+// ---- twins for the rules of batch 11 and the repairs that followed ---------------------------------
+pub mod b11 {
+    pub struct Skip;
+    impl Skip {
+        pub fn range_by_score(&self, _min: f64, _max: f64) -> Vec<(Vec<u8>, f64)> { Vec::new() }
+        pub fn len(&self) -> usize { 0 }
+    }
+    pub struct Eng { pub z: Skip }
+    impl Eng {
+        pub fn zcard(&self, _db: usize, _key: &[u8]) -> Result<usize, String> { Ok(self.z.len()) }
+        pub fn zrangebyscore(&self, _db: usize, _key: &[u8], min: f64, max: f64) -> Result<Vec<(Vec<u8>, f64)>, String> { Ok(self.z.range_by_score(min, max)) }
+        // answers that do / do not come from both bounds
+        pub fn bu_bad_is_infinite_shortcut(&self, db: usize, key: &[u8], min: f64, max: f64) -> Result<usize, String> {
+            if min.is_infinite() && max.is_infinite() { return self.zcard(db, key); }
+            Ok(self.zrangebyscore(db, key, min, max)?.len())
+        }
+        pub fn bu_ok_exact_fast_path(&self, db: usize, key: &[u8], min: f64, max: f64) -> Result<usize, String> {
+            if min == f64::NEG_INFINITY && max == f64::INFINITY { return self.zcard(db, key); }
+            Ok(self.zrangebyscore(db, key, min, max)?.len())
+        }
+        pub fn bu_ok_plain(&self, db: usize, key: &[u8], min: f64, max: f64) -> Result<usize, String> {
+            self.zrangebyscore(db, key, min, max).map(|m| m.len())
+        }
+        pub fn bu_bad_half_exact(&self, db: usize, key: &[u8], min: f64, max: f64) -> Result<usize, String> {
+            if min == f64::NEG_INFINITY && max.is_infinite() { return self.zcard(db, key); }
+            Ok(self.zrangebyscore(db, key, min, max)?.len())
+        }
+    }
+    // index ranges: the stop is never clamped from below
+    pub fn rs_bad_stop_max0(list: &std::collections::VecDeque<Vec<u8>>, start: isize, stop: isize) -> Vec<Vec<u8>> {
+        let len = list.len() as isize;
+        let start = if start < 0 { (len + start).max(0) } else { start } as usize;
+        let stop = if stop < 0 { (len + stop).max(0) } else { stop } as usize;
+        list.iter().enumerate().filter(|(i, _)| *i >= start && *i <= stop).map(|(_, x)| x.clone()).collect()
+    }
+    pub fn rs_ok_stop_negative_is_empty(list: &std::collections::VecDeque<Vec<u8>>, start: isize, stop: isize) -> Vec<Vec<u8>> {
+        let len = list.len() as isize;
+        let start = if start < 0 { (len + start).max(0) } else { start };
+        let stop = if stop < 0 { len + stop } else { stop }.min(len - 1);
+        if start > stop { return Vec::new(); }
+        list.iter().enumerate().filter(|(i, _)| *i as isize >= start && *i as isize <= stop).map(|(_, x)| x.clone()).collect()
+    }
+    // the inclusive end of a range read
+    pub fn re_bad_saturating(ids: &[u64], start: u64, end: u64) -> Vec<u64> {
+        let s = ids.binary_search(&start).unwrap_or_else(|i| i);
+        let e = ids.binary_search(&end).unwrap_or_else(|i| if i > 0 { i - 1 } else { 0 });
+        let mut out = Vec::new();
+        for i in s..=e { if i < ids.len() { out.push(ids[i]); } }
+        out
+    }
+    pub fn re_ok_empty_when_nothing_le_end(ids: &[u64], start: u64, end: u64) -> Vec<u64> {
+        let s = ids.binary_search(&start).unwrap_or_else(|i| i);
+        let e = match ids.binary_search(&end) { Ok(i) => i, Err(0) => return Vec::new(), Err(i) => i - 1 };
+        let mut out = Vec::new();
+        for i in s..=e { if i < ids.len() { out.push(ids[i]); } }
+        out
+    }
+}
